@@ -260,7 +260,7 @@ def run_case(case):
             if d:
                 viol = dict(d, oracle="pushdown_vs_pandas", pred=f"{sh}:{combo}", proj=proj, user_filters=user_f, classes=progcase.plan_classes(qo.expr))
                 try:
-                    flt = next((x.operand("filters") for x in rn if x.operand("filters")), None) or []
+                    flt = [c_ for x_ in rn for c_ in (x_.operand("filters") or [])]
                     if not (hasattr(got, "columns") and "rid" in got.columns) and not (isinstance(got, pd.Series) and got.name == "rid"):
                         # the projection dropped the row id: recompute the same filter unprojected, only to name the missing rows
                         got = concat_parts(exec_ref(rr[eval_pred(sh, combo, rr)].optimize().expr))
